@@ -126,20 +126,31 @@ type uciWorld struct {
 	done chan struct{}
 	t0   time.Time
 
-	pipe      [][]byte
-	eofQueued bool
-	eofSent   bool
-	partial   string // GUI-side bytes of the current unfinished line
-	pending   []byte
-	hasPend   bool
-	parked    bool
-	finished  bool
+	pipe         [][]byte
+	eofQueued    bool
+	eofSent      bool
+	partial      string // GUI-side bytes of the current unfinished line
+	rdPartial    string // reader-side bytes of the current unfinished line
+	anyInterrupt bool
+	stackBuf     []byte
+	pending      []byte
+	hasPend      bool
+	parked       bool
+	finished     bool
 
 	// events raised by the driver's own goroutines (through the search seam)
 	// are buffered and merged into the history by the scheduler at the next
 	// quiescent point: only the scheduler ever appends to the history.
 	asyncMu sync.Mutex
 	async   []asyncEvent
+
+	// hazard: the per-search interrupt goroutine exists but is not waiting in
+	// its select (it is blocked writing readyok to a full output channel). If
+	// two of its sources became ready meanwhile, Go would pick at random when
+	// it returns to the select; the scheduler therefore lets at most one
+	// become ready until the hazard has cleared (DESIGN.md 5.4).
+	hazard        bool
+	readerPending bool // the reader holds a line nobody has received yet
 
 	cur      *GoCall // search in progress (between GOCALL and GORET)
 	curAgent *agent
@@ -264,17 +275,23 @@ func (ws *wrapSearch) Go(b *board.Board, opts ...search.Option) (score chess.Sco
 		}
 		var self <-chan time.Time
 		if sg.SelfEndUS > 0 {
-			tm := time.NewTimer(time.Duration(sg.SelfEndUS) * time.Microsecond)
+			// 333 ns off the microsecond grid: never ties with a driver timer or a scheduler sleep
+			tm := time.NewTimer(time.Duration(sg.SelfEndUS)*time.Microsecond + 333)
 			defer tm.Stop()
 			self = tm.C
 		}
 		if call.Opts.Stop != nil {
 			select {
 			case <-call.Opts.Stop:
+			case <-self:
+			}
+			// classify deterministically even if both became ready at once
+			select {
+			case <-call.Opts.Stop:
 				call.TStop = w.now()
 				call.Aborted = true
 				w.evAsync("STUBSTOP", "", 0, nil)
-			case <-self:
+			default:
 				w.evAsync("STUBSELF", "", 0, nil)
 			}
 		}
@@ -319,17 +336,21 @@ func (w *uciWorld) settle() {
 	for {
 		synctest.Wait()
 		progressed := w.flushAsync()
+		w.inspect()
 		if len(w.pipe) > 0 {
 			chunk := w.pipe[0]
-			select {
-			case w.rd.ch <- chunk:
-				w.pipe = w.pipe[1:]
-				synctest.Wait()
-				w.ev("READ", string(chunk), 0)
-				progressed = true
-			default:
+			if w.safeToPump(chunk) {
+				select {
+				case w.rd.ch <- chunk:
+					w.pipe = w.pipe[1:]
+					w.rdPartial = w.afterChunk(chunk)
+					synctest.Wait()
+					w.ev("READ", string(chunk), 0)
+					progressed = true
+				default:
+				}
 			}
-		} else if w.eofQueued && !w.eofSent {
+		} else if w.eofQueued && !w.eofSent && !w.hazard && !w.realSearchUnparked() {
 			close(w.rd.ch)
 			w.eofSent = true
 			progressed = true
@@ -364,6 +385,82 @@ func (w *uciWorld) settle() {
 			return
 		}
 	}
+}
+
+// inspect reads, from the goroutine dump, whether the interrupt goroutine is
+// waiting in its select and whether the reader is holding an undelivered line.
+func (w *uciWorld) inspect() {
+	w.hazard, w.readerPending = false, false
+	if w.cur == nil && !w.anyInterrupt {
+		return
+	}
+	if w.stackBuf == nil {
+		w.stackBuf = make([]byte, 1<<18)
+	}
+	n := runtime.Stack(w.stackBuf, true)
+	for n == len(w.stackBuf) { // truncated dump: would hide goroutines
+		w.stackBuf = make([]byte, 2*len(w.stackBuf))
+		n = runtime.Stack(w.stackBuf, true)
+	}
+	buf := w.stackBuf
+	w.anyInterrupt = false
+	for _, g := range strings.Split(string(buf[:n]), "\n\n") {
+		head, _, _ := strings.Cut(g, "\n")
+		if !strings.Contains(head, "synctest bubble") {
+			continue
+		}
+		switch {
+		case strings.Contains(g, ".handleGo.func"):
+			w.anyInterrupt = true
+			if !strings.Contains(head, "[select") {
+				w.hazard = true
+			}
+		case strings.Contains(g, ".readInput("):
+			if strings.Contains(head, "[chan send") {
+				w.readerPending = true
+			}
+		}
+	}
+}
+
+// realSearchUnparked: the real search is active but not parked at a poll
+// (it is blocked writing to the output channel); once writes are granted it
+// may run on and even finish without passing through the scheduler.
+func (w *uciWorld) realSearchUnparked() bool {
+	return w.cur != nil && w.curAgent != nil && !w.parked
+}
+
+// afterChunk returns the unterminated tail the reader holds after chunk.
+func (w *uciWorld) afterChunk(chunk []byte) string {
+	t := w.rdPartial + string(chunk)
+	if i := strings.LastIndexByte(t, '\n'); i >= 0 {
+		return t[i+1:]
+	}
+	return t
+}
+
+// safeToPump decides whether handing the next chunk of the pipe to the reader
+// could make a second source of the interrupt goroutine's select ready while
+// the first is still unconsumed.
+func (w *uciWorld) safeToPump(chunk []byte) bool {
+	if !w.realSearchUnparked() {
+		return true
+	}
+	if w.hazard {
+		return false
+	}
+	t := w.rdPartial + string(chunk)
+	if strings.Count(t, "\n") == 0 {
+		return true
+	}
+	if strings.Count(t, "\n") > 1 {
+		return false
+	}
+	switch firstToken(t) {
+	case "stop", "quit", "ponderhit":
+		return strings.HasSuffix(t, "\n")
+	}
+	return false
 }
 
 // guiWrite appends bytes to the pipe and records an IN event for every line
@@ -416,7 +513,7 @@ func (w *uciWorld) apply(st UStep) bool {
 		}
 		return any
 	case "run":
-		if !w.parked {
+		if !w.parked || w.hazard {
 			return false
 		}
 		if st.CostUS > 0 {
@@ -429,6 +526,9 @@ func (w *uciWorld) apply(st UStep) bool {
 			w.co.resumeN <- max(1, st.Polls)
 		}
 	case "tick":
+		if w.hazard {
+			return false
+		}
 		if st.DUS > 0 {
 			time.Sleep(time.Duration(st.DUS) * time.Microsecond)
 			w.ev("TICK", "", st.DUS)
@@ -487,6 +587,10 @@ func (w *uciWorld) drain(toEnd bool) {
 		switch {
 		case w.hasPend:
 			w.apply(UStep{Op: "grant"})
+		case w.hazard:
+			// cannot happen: a blocked writer of readyok implies a full channel
+			w.ev("STUCK", "hazard without a pending write", 0)
+			return
 		case w.parked:
 			if pollBudget <= 0 {
 				w.ev("DRAIN-GIVEUP", "poll budget exhausted", 0)
@@ -558,6 +662,7 @@ func RunUCIScenario(sc *UCIScenario, ch chooser, keepEvents bool) (out *UCIOutco
 	if ch == nil {
 		ch = &replayChooser{steps: sc.Steps}
 	}
+	refused := 0
 	for {
 		w.settle()
 		st, ok := ch.next(w)
@@ -566,6 +671,11 @@ func RunUCIScenario(sc *UCIScenario, ch chooser, keepEvents bool) (out *UCIOutco
 		}
 		if w.apply(st) {
 			out.Steps = append(out.Steps, st)
+			refused = 0
+		} else if refused++; refused > 500 {
+			// a generator that keeps proposing steps the world refuses: end the session
+			w.stat("generator_stalled", 1)
+			break
 		}
 	}
 	// end of session: whatever the script did, the GUI now goes away (if it has
@@ -595,6 +705,10 @@ func RunUCIScenario(sc *UCIScenario, ch chooser, keepEvents bool) (out *UCIOutco
 func bubbleGoroutines() []string {
 	buf := make([]byte, 1<<20)
 	n := runtime.Stack(buf, true)
+	for n == len(buf) {
+		buf = make([]byte, 2*len(buf))
+		n = runtime.Stack(buf, true)
+	}
 	var out []string
 	for i, g := range strings.Split(string(buf[:n]), "\n\n") {
 		if i == 0 {
